@@ -651,7 +651,7 @@ def run_batch(exe, cases, per_case_timeout=10.0, env=None, chunk=400, args=()):
         part, todo = todo[:chunk], todo[chunk:]
         inp = "".join(c.text() for c in part)
         to = 20 + per_case_timeout * len(part)
-        rc, out, err = sh([exe] + list(args), inp=inp, timeout=to, env=e)
+        rc, out, err = run_progress([exe] + list(args), inp, e, stall=per_case_timeout + 10.0, total=to)
         parsed = parse_batch_output(out)
         bad_idx = None
         for i, c in enumerate(part):
@@ -673,6 +673,56 @@ def run_batch(exe, cases, per_case_timeout=10.0, env=None, chunk=400, args=()):
             if st == "timeout" and len(part) > 1 and bad_idx == 0 and chunk > 1:
                 pass
     return results
+
+
+def run_progress(cmd, inp, env, stall, total):
+    """Run a batch driver feeding `inp`; kill it when no further output has appeared for
+    `stall` seconds (a hanging case) or after `total` seconds.  Returns (rc, stdout, stderr);
+    rc 124 on either timeout."""
+    import threading
+    p = subprocess.Popen(cmd, stdin=subprocess.PIPE, stdout=subprocess.PIPE, stderr=subprocess.PIPE, env=env)
+    out_chunks, err_chunks = [], []
+    last = [time.time()]
+
+    def rd_out():
+        while True:
+            b = p.stdout.read1(65536)
+            if not b:
+                break
+            out_chunks.append(b)
+            last[0] = time.time()
+
+    def rd_err():
+        while True:
+            b = p.stderr.read1(65536)
+            if not b:
+                break
+            err_chunks.append(b)
+
+    def wr():
+        try:
+            p.stdin.write(inp.encode())
+            p.stdin.close()
+        except (BrokenPipeError, OSError):
+            pass
+    ts = [threading.Thread(target=f, daemon=True) for f in (rd_out, rd_err, wr)]
+    for t in ts:
+        t.start()
+    t0 = time.time()
+    timed_out = False
+    while p.poll() is None:
+        time.sleep(0.02)
+        now = time.time()
+        if now - last[0] > stall or now - t0 > total:
+            timed_out = True
+            p.kill()
+            break
+    p.wait()
+    for t in ts[:2]:
+        t.join(timeout=5)
+    out = b"".join(out_chunks).decode("utf-8", "replace")
+    err = b"".join(err_chunks).decode("utf-8", "replace")
+    return (124 if timed_out else p.returncode), out, err
 
 
 def summarize_stderr(err):
